@@ -14,6 +14,9 @@ P = {
 P['C08'] = dict(cat='other', tech='ownership / alias analysis of handle-holding classes over all call sites (custom libTooling checker)',
    text='Ownership analysis: payload classes are value-only; every handle write is a fresh allocation; no copy of an aliasing class (Frame, and classes holding it by value) lands in object-owned storage; no public method hands out a handle. Full claim at the structural level: the property is an ownership property.',
    note='Users of the documented const-bypass accessors are outside the property; C++11 vector::resize(n) value-initialises each element. ' + TB, ref='4/C08')
+P['C11'] = dict(cat='other', tech='accessor inventory by signature shape + per-accessor discipline rules on AST/CFG, finite enumeration of the type enum (custom libTooling checker)',
+   text='Every positional accessor is bounds-checked on the full-width unmodified index and translates to std::out_of_range; index-by-name functions are first-exact-match loops ending in std::invalid_argument; by-name accessors compose the two on one container; typed getters enumerated over all DATA_TYPE values; every name store is trimmed. Full claim except the text of messages.',
+   note='Assumes std::vector::at and std::string::compare behave per the standard. ' + TB, ref='4/C11')
 NA = {
  'C19': 'compares compiled artefacts across optimisation levels / link kinds; not decidable from source without running the builds (DESIGN 4/C19)',
 }
